@@ -100,6 +100,8 @@ def real_replay(ob, cex):
     from bfg9000.shell import posix as pshell
     s = cex['args'][0]
     fn = ob.fn
+    if fn not in POSITIONS:
+        return None      # whole-manifest obligations: the harness body already runs the real writer
     nf = NinjaFile('build.bfg')
     exp_env = {'V': '', 'W': ''}
     if fn == 'a_rule_arg':
@@ -136,6 +138,8 @@ def real_replay(ob, cex):
 
 def classify(ob, cex):
     s = cex['args'][0]
+    if not isinstance(s, str) or ob.fn not in POSITIONS:
+        return None
     k = s.find('=')
     if ob.fn == 'b_command_word' and k > 0 and rsh._is_name(s[:k]):
         return 'C02-F12'
